@@ -106,7 +106,7 @@ fn region(name: &str, kind: &str, encrypted: bool, wire: &[u8], body_len: usize,
 pub fn run_case(case: &Value, out: &mut Obs) {
     let cid = case.get("case").cloned().unwrap_or(Value::Null);
     let c = &case["c"];
-    let stride = (geti(case, "stride").max(1)) as usize;
+    let stride = std::env::var("VERIF_STRIDE").ok().and_then(|s| s.parse::<usize>().ok()).unwrap_or(1).max(1);
     let r = match guard(|| run(c, stride, geti(case, "case") as usize)) {
         Ok(Ok(v)) => v,
         Ok(Err(e)) => json!({"fail": "setup", "site": sanitize(&e), "n": 0, "outcomes": [], "codes": [], "sites": [], "len": 0, "region": 0}),
